@@ -8,10 +8,22 @@
       (`pendStart` for the start/connect thread, `pendRecv` for the receive goroutine: each thread
       injects before its next CAS, so one slot per thread is exact);
     * `injStart/injRecv` — that thread's `s.inject(ev)` (channel send);
-    * `inject ev` — a direct inject (TCPDown → evDisconnect, T7Expired → evT7Timeout, requestClose → evClose);
+    * `inject k` — a direct inject (TCPDown → evDisconnect tagged with the current TCP generation,
+      T7Expired → evT7Timeout tagged with the current NotSelected dwell, requestClose → evClose);
     * `runLoad` — run(): receive the next event; step(): closed check, `state.Load()`, stale select-lost abandon;
-    * `runCommit` — step(): transition, Store / T7 CompareAndSwap, deduped fireTransition, close latch;
+    * `runCommit` — step(): stale-tag check (generation / dwell read after the state), transition,
+      Store / T7 CompareAndSwap, deduped fireTransition, close latch;
     * `deliver` — the notifier takes one buffered notification.
+
+  Sequence tags.  `gen` counts TCP-up commits, `dwell` counts entries into NotSelected (the two commits
+  into NotSelected and the run goroutine's own store of NotSelected).  In the code a commit advances its
+  counters BEFORE its CAS and takes them back if the CAS fails; the model performs counter and CAS in one
+  action at the CAS.  Between the two instructions the state still has its old value (NotConnected resp.
+  Selected), from which a disconnect / T7 event is a no-op whether or not it is recognised as stale, and an
+  injector that already reads the new number behaves as one running right after the CAS; so every schedule
+  of the split instructions has the same observable outcome as one of the fused action.  Likewise
+  `runCommit` fuses the counter load with the store that follows it (as it already does for
+  `deselectPending`).
   The events channel is modelled unbounded (a superset of the real schedules: a full channel only
   delays the sender); the notify buffer has its real capacity because dropping is observable.
 
@@ -23,8 +35,10 @@ inductive St where
   | NC | NS | S
   deriving DecidableEq, Repr, Inhabited
 
+/-- Events as they travel through the queue. `disc g` carries the TCP generation in which the drop was
+    reported, `t7 d` the NotSelected dwell in which the timer expired. -/
 inductive Ev where
-  | tcpUp | selAcc | selLost | disc | close | t7
+  | tcpUp | selAcc | selLost | disc (g : Nat) | close | t7 (d : Nat)
   deriving DecidableEq, Repr, Inhabited
 
 def St.toNat : St → Nat
@@ -32,7 +46,11 @@ def St.toNat : St → Nat
 
 /-- Go's iota numbering of fsmEvent. -/
 def Ev.toNat : Ev → Nat
-  | .tcpUp => 0 | .selAcc => 1 | .selLost => 2 | .disc => 3 | .close => 4 | .t7 => 5
+  | .tcpUp => 0 | .selAcc => 1 | .selLost => 2 | .disc _ => 3 | .close => 4 | .t7 _ => 5
+
+@[simp] def Ev.isT7 : Ev → Bool
+  | .t7 _ => true
+  | _ => false
 
 /-- The E37 table (hand-written specification; `Props/C05.transition_gen` ties it to the Go source). -/
 def transition : St → Ev → St × Bool
@@ -42,9 +60,9 @@ def transition : St → Ev → St × Bool
   | .S, .selAcc => (.S, true)
   | .S, .selLost => (.NS, true)
   | .NS, .selLost => (.NS, true)
-  | .S, .disc => (.NC, true)
-  | .NS, .disc => (.NC, true)
-  | .NS, .t7 => (.NC, true)
+  | .S, .disc _ => (.NC, true)
+  | .NS, .disc _ => (.NC, true)
+  | .NS, .t7 _ => (.NC, true)
   | _, .close => (.NC, true)
   | cur, _ => (cur, false)
 
@@ -72,14 +90,21 @@ structure Cfg where
   delivered : List (St × St) := []    -- what handlers have seen, in order
   reactions : List (St × St) := []    -- react(prev, next) calls, in order
   stopped : Bool := false             -- Close has returned: supervisor stopped, every generation and loop joined
+  gen : Nat := 0                      -- `generation`: TCP-up commits so far
+  dwell : Nat := 0                    -- `dwell`: entries into NotSelected so far
   deriving Repr, Inhabited
 
 def init : Cfg := {}
 
+/-- The direct injectors: TCPDown, T7Expired, requestClose. -/
+inductive Inj where
+  | disc | t7 | close
+  deriving DecidableEq, Repr, Inhabited
+
 inductive Act where
   | casConnected | casSelected | casSelectLost
   | injStart | injRecv
-  | inject (ev : Ev)
+  | inject (k : Inj)
   | runLoad | runCommit
   | deliver
   | closeReturn   -- the tail of Close(): after evClose was processed and everything joined, publish NotConnected
@@ -115,7 +140,7 @@ inductive Outcome where
 def outcome (ev : Ev) (cur st : St) (deselPending : Bool) : Outcome :=
   if (transition cur ev).2 = false then .noop
   else if (transition cur ev).1 = cur then .react
-  else if ev = .t7 ∧ st ≠ cur then .abandon
+  else if ev.isT7 ∧ st ≠ cur then .abandon
   else if ev = .selAcc ∧ deselPending then .react   -- superseded by a later Deselect commit: reaction only
   else .store
 
@@ -123,22 +148,40 @@ def outcome (ev : Ev) (cur st : St) (deselPending : Bool) : Outcome :=
     (parked before its inject, or queued). -/
 def deselPending (c : Cfg) : Bool := decide (Ev.selLost ∈ c.queue) || (c.pendRecv == some .selLost)
 
+/-- `step`'s own store of NotSelected (an entry no commit pre-stored) opens a new dwell as well. -/
+def dwellAfterStore (c : Cfg) (next : St) : Nat := if next = .NS then c.dwell + 1 else c.dwell
+
 /-- The store half of `step` for a loaded `(ev, cur)`. -/
 def commit (c : Cfg) (ev : Ev) (cur : St) : Cfg :=
   match outcome ev cur c.st (deselPending c) with
   | .noop => latch { c with pc := .idle } ev
   | .react => latch (reactTo { c with pc := .idle } (transition cur ev).1) ev
   | .abandon => { c with pc := .idle }
-  | .store => latch (reactTo { c with pc := .idle, st := (transition cur ev).1 } (transition cur ev).1) ev
+  | .store =>
+    latch (reactTo { c with pc := .idle, st := (transition cur ev).1, dwell := dwellAfterStore c (transition cur ev).1 }
+      (transition cur ev).1) ev
+
+/-- What an injector enqueues: the event tagged with the sequence number current at the call. -/
+def Inj.toEv (c : Cfg) : Inj → Ev
+  | .disc => .disc c.gen
+  | .t7 => .t7 c.dwell
+  | .close => .close
+
+/-- `step`'s stale check: a disconnect of an earlier TCP generation, a T7 expiry of an earlier dwell. -/
+def stale (c : Cfg) : Ev → Bool
+  | .disc g => decide (g < c.gen)
+  | .t7 d => decide (d < c.dwell)
+  | _ => false
 
 /-- One atomic action while the connection's goroutines are alive. -/
 def stepLive (c : Cfg) : Act → Cfg
   | .casConnected =>
-    if c.pendStart.isNone ∧ c.st = .NC then { c with st := .NS, pendStart := some .tcpUp } else c
+    if c.pendStart.isNone ∧ c.st = .NC then
+      { c with st := .NS, pendStart := some .tcpUp, gen := c.gen + 1, dwell := c.dwell + 1 } else c
   | .casSelected =>
     if c.pendRecv.isNone ∧ c.st = .NS then { c with st := .S, pendRecv := some .selAcc } else c
   | .casSelectLost =>
-    if c.pendRecv.isNone ∧ c.st = .S then { c with st := .NS, pendRecv := some .selLost } else c
+    if c.pendRecv.isNone ∧ c.st = .S then { c with st := .NS, pendRecv := some .selLost, dwell := c.dwell + 1 } else c
   | .injStart =>
     match c.pendStart with
     | some e => { c with pendStart := none, queue := c.queue ++ [e] }
@@ -147,8 +190,7 @@ def stepLive (c : Cfg) : Act → Cfg
     match c.pendRecv with
     | some e => { c with pendRecv := none, queue := c.queue ++ [e] }
     | none => c
-  | .inject ev =>
-    if ev = .disc ∨ ev = .t7 ∨ ev = .close then { c with queue := c.queue ++ [ev] } else c
+  | .inject k => { c with queue := c.queue ++ [k.toEv c] }
   | .runLoad =>
     match c.pc, c.queue with
     | .idle, e :: q =>
@@ -159,7 +201,7 @@ def stepLive (c : Cfg) : Act → Cfg
   | .runCommit =>
     match c.pc with
     | .idle => c
-    | .loaded ev cur => commit c ev cur
+    | .loaded ev cur => if stale c ev then { c with pc := .idle } else commit c ev cur
   | .deliver =>
     match c.notify with
     | [] => c
